@@ -31,8 +31,7 @@ class _P(Policy):
         return False
 
 
-class _PW(_P):
-    loop_mode = "widen"
+class _PH(_P):
     root = None
 
     def inline(self, fn, args, interp, path):
@@ -41,6 +40,10 @@ class _PW(_P):
         if cb is None or not cb["path"].startswith("expression::flat::detail::") or cb["path"] == self.root or cb.get("public"):
             return False
         return any(re.match(r"^&mut (\[usize\]|smallvec::SmallVec<\[usize;|std::vec::Vec<usize)", cb["locals"][i]["ty"]) for i in range(1, cb["arg_count"] + 1))
+
+
+class _PW(_PH):
+    loop_mode = "widen"
 
 
 class Step:
@@ -82,7 +85,7 @@ def closure_form(chk, fb, b):
     steps = []
     for kind, node in (("Var", Variant(NODE, None, {"kind": Variant(KIND, "Var", {"0": Sym("idx")}), "unary_op": Sym("u")})),
                        ("Num", Variant(NODE, None, {"kind": Variant(KIND, "Num", {"0": Sym("n")}), "unary_op": Sym("u")}))):
-        ps = Interp(fb, _P()).run(cb, [env, node])
+        ps = Interp(fb, _PH()).run(cb, [env, node])
         if any(p.status not in ("return", "unreachable") for p in ps):
             chk.unrecognised("R15.1", "shape", "per-node closure: %s" % [(p.status, p.note) for p in ps if p.status not in ("return", "unreachable")][:3], loc(cb["span"]))
             return False
@@ -91,7 +94,16 @@ def closure_form(chk, fb, b):
                 continue
             decs = [(show(d[1]), d[2], d[1]) for d in p.decisions]
             cloned = any(e[0] == "call" and e[1] == "std::clone::Clone::clone" and show(e[2][0]) == "index(vars, idx)" for e in p.events)
-            marks = [(show(e[1]), show(e[3])) for e in p.events if e[0] == "write_opaque"]
+            marks = []
+            for e in p.events:
+                if e[0] != "write_opaque":
+                    continue
+                tgt_ = show(e[1])
+                # `occ[i] = MAX` through a reference handed to a helper: the target is the indexed element
+                ix_ = [x for x in e[2] if x and x[0] == "i"]
+                if len(ix_) == 1 and len(e) > 4 and ix_[0][1] in e[4]:
+                    tgt_ = "std::ops::IndexMut::index_mut(%s, %s)" % (tgt_, show(e[4][ix_[0][1]]))
+                marks.append((tgt_, show(e[3])))
             cls = [c for d in p.decisions for c in _closures(d[1])]
             steps.append(Step(kind, decs, show(p.result), cloned, marks, cls, cb["span"]))
     return steps, occ_init, cl, {}
@@ -536,6 +548,14 @@ def run(ctx):
     # ---- occurrence list
     # only the MULTISET of variable indices matters (entries are counted and one equal entry is marked): order-changing adaptors are fine
     occ_term = show(occ_init) if occ_init is not None else "?"
+    mh = re.match(r"^(expression::flat::detail::\w+)\(nodes\)$", occ_term)
+    if mh and mh.group(1) in fb.bodies and not fb.bodies[mh.group(1)].get("public") and fb.bodies[mh.group(1)]["arg_count"] == 1:
+        # the list is built by a private helper that is handed the nodes: read the helper
+        hb = fb.bodies[mh.group(1)]
+        hr = [p for p in Interp(fb, _P()).run(hb, [Sym("nodes")]) if p.status != "unreachable"]
+        if len(hr) == 1 and hr[0].status == "return":
+            occ_term = show(hr[0].result)
+            cl = order.closures_created(fb, hb, [Sym("nodes")])[0]
     core = occ_term
     for _ in range(6):
         m = re.match(r"^std::iter::Iterator::(collect|rev)\((.*)\)$", core)
